@@ -318,9 +318,9 @@ Theorem C09_decrement_model : forall cf st room,
                | Some (_, true) => count_dec (key_conn t) (snd (exec cf st (IEntomb t s) room)) = 1
                | _ => snd (exec cf st (IEntomb t s) room) = []
                end) /\
-  (forall t, match snd (items_delete st t) with
-             | Some (_, true) => count_dec (key_conn t) (snd (exec cf st (IDelete t) room)) = 1
-             | _ => snd (exec cf st (IDelete t) room) = []
+  (forall t lk, match snd (items_delete_call st t lk) with
+             | Some (_, true) => count_dec (key_conn t) (snd (exec cf st (IDelete t lk) room)) = 1
+             | _ => snd (exec cf st (IDelete t lk) room) = []
              end).
 Proof. exact (fun cf st room => conj (fun k => dec_then_check cf st k room) (dec_sites_model cf st room)). Qed.
 Print Assumptions C09_decrement_model.
@@ -369,6 +369,60 @@ Theorem C09_collection_leaves_live_item : forall cf st t it,
 Proof. exact gc_of_live_item_noop. Qed.
 Print Assumptions C09_collection_leaves_live_item.
 
+(* ---- finishRelayItem deletes only the item of the call the frame path looked up (A09) ----
+
+   Fix "the relay finishes (deletes) a relay item only if it still belongs to the call the frame
+   path looked up": finishRelayItem(items, id, lookedUp) -> relayItems.deleteCall.  Model: IDelete t lk
+   and IRcvEnq r rk lk carry lk = (destination relayer, destination-side id) of the looked-up item,
+   [items_delete_call] compares it with the item found. *)
+
+(* the statements of relayItems.deleteCall, the two callers of finishRelayItem with the argument
+   they pass (the item they looked up) and the callers of the three delete operations, regenerated
+   on every run, ARE the model's; and the model's deleteCall case by case *)
+Theorem C09_finish_sites_generated :
+  relay_deletecall_body = rs_dcbody_rows /\ relay_finish_sites = rs_finish_rows /\ relay_delete_sites = rs_delete_rows /\
+  (forall (st : state) (t : key) (lk : Z * Z),
+     match lookup key_eqb t (items st) with
+     | None => items_delete_call st t lk = (st, None)
+     | Some it =>
+         if (it_dest it =? fst lk) && (it_remap it =? snd lk)
+         then items_delete_call st t lk =
+                (timer_release (set_items st (remove key_eqb t (items st))) (it_tm it), Some (it, negb (it_tomb it)))
+         else items_delete_call st t lk = (st, None)
+     end).
+Proof. exact (conj gen_deletecall_body (conj gen_finish_sites (conj gen_delete_sites items_delete_call_rows))). Qed.
+Print Assumptions C09_finish_sites_generated.
+
+(* where the model's two finishes take the identity from: Receive's from the item copy it holds
+   after its lookup, handleNonCallReq's from the caller's own item *)
+Theorem C09_finish_identity_model : forall cf st room,
+  (forall r rk it s, it_tomb it || (fin_of (r_f r) && negb s) = false ->
+     exists cbs, snd (exec cf st (IRcvChk r rk (Some (it, s))) room) = cbs ++ [IRcvEnq r rk (it_dest it, it_remap it)]) /\
+  (forall r rk lk, fin_of (r_f r) = true ->
+     snd (exec cf st (IRcvEnq r rk lk) true) = IDelete rk lk :: after_sent r) /\
+  (forall r, fin_of (r_f r) = true -> exists tl, after_sent r = IDelete (r_own r) (r_d r, f_id (r_f r)) :: tl) /\
+  (forall k f ft own it s, it_tomb it || (fin_of f && negb s) = false ->
+     exists cbs r, snd (exec cf st (INcChk k f ft own (Some (it, s))) room) = cbs ++ [IRcvGet r] /\
+       r_own r = own /\ (r_d r, f_id (r_f r)) = (it_dest it, it_remap it)).
+Proof. exact finish_identity_model. Qed.
+Print Assumptions C09_finish_identity_model.
+
+(* in every fresh-id schedule a finish that is about to run passes the check: finishRelayItem is
+   the Delete it was before the fix (so every theorem above speaks about the code as it is) *)
+Theorem C09_finish_is_delete : forall cf ls st th t lk rest, run_fresh cf init ls = Some st ->
+  lookup tid_eqb th (threads st) = Some (IDelete t lk :: rest) ->
+  items_delete_call st t lk = items_delete st t.
+Proof. exact finish_is_delete. Qed.
+Print Assumptions C09_finish_is_delete.
+
+(* ... and an item of ANOTHER call found under the id (the id was re-used) is left alone: the
+   step changes nothing -- not the item, not its armed timer, not the counters *)
+Theorem C09_finish_leaves_other_call : forall cf st t lk it room,
+  lookup key_eqb t (items st) = Some it -> (it_dest it =? fst lk) && (it_remap it =? snd lk) = false ->
+  exec cf st (IDelete t lk) room = (st, []).
+Proof. exact finish_leaves_other_call. Qed.
+Print Assumptions C09_finish_leaves_other_call.
+
 (* ---- (C) schedules with re-used ids ----
 
    [run_reuse] (Proofs/RelayReuseP.v) accepts every interleaving of any number of connections,
@@ -404,24 +458,35 @@ Theorem C09_timer_protocol_reuse : forall cf ls st, run_reuse cf init ls = Some 
 Proof. exact reuse_timer_protocol. Qed.
 Print Assumptions C09_timer_protocol_reuse.
 
-(* The guard on re-use schedules CANNOT be dropped entirely, also with relayItems.deleteTomb.
-   (1) The schedule that needed it before the fix (finishRelayItem deletes a tombstone whose
-   collection is pending, the id is re-used and admitted, the stale collection fires) is now
-   harmless: the live item and its armed timer survive the stale collection.
-   (2) But a re-used id that meets NO item can be admitted while another goroutine still holds
-   the key: the reader of the destination connection has looked the originating item up for the
-   final call res, the caller cancels (both items deleted, End) and re-uses the id at once, the
-   first reader's finishRelayItem then deletes the LIVE item of the new call and releases its
-   active timer: the model reaches the Go panic "only stopped or completed timers can be
-   released".  (A caller that re-uses the id of a call whose response it has not seen; outside
-   the quantifier of C09, reported to C03.) *)
+(* The guard on re-use schedules CANNOT be dropped entirely.
+   (1) The schedule that needed it before relayItems.deleteTomb (finishRelayItem deletes a
+   tombstone whose collection is pending, the id is re-used and admitted, the stale collection
+   fires) is harmless: the live item and its armed timer survive the stale collection.
+   (2) The schedule that needed it before relayItems.deleteCall (the reader of the destination
+   connection has looked the originating item up for the final call res, the caller cancels and
+   re-uses the id at once, the first reader's finishRelayItem runs with its stale copy --
+   reproduced on the implementation, [c09:stale-finish-deletes-live-item], fixed) is harmless:
+   deleteCall compares the destination relayer and the destination-side id of the item it finds
+   with the looked-up one and leaves the new call's item alone.
+   (3) What remains: failRelayItem's Get and Entomb are two lock regions and Entomb works BY ID;
+   with more than RelayMaxTombs tombstones it deletes by id at once.  A reader that is between
+   the two while the caller cancels the call and re-uses the id deletes the LIVE item of the new
+   call and releases its active timer: the model reaches the Go panic "only stopped or completed
+   timers can be released" ([ex_stale_fail], RelayMaxTombs = 1; not reproduced on the
+   implementation: there is no schedule point between the two regions).  A caller that re-uses the
+   id of a call whose response it has not seen: outside the quantifier of C09. *)
 Theorem C09_stale_collection_harmless :
   exists st it x, run ex_cf init ex_early_delete = Some st /\ panicked st = 0 /\ gcs st = [(1, 1, 1)] /\
     lookup key_eqb (0, 0, 7) (items st) = Some it /\ it_tomb it = false /\
     lookup Z.eqb (it_tm it) (timers st) = Some x /\ tm_armed x = true.
 Proof. exact stale_collection_harmless. Qed.
+Theorem C09_stale_finish_harmless :
+  exists st it x, run cn_cf init ex_stale_finish = Some st /\ panicked st = 0 /\
+    lookup key_eqb (0, 0, 7) (items st) = Some it /\ it_tomb it = false /\ it_call it = 2 /\
+    lookup Z.eqb (it_tm it) (timers st) = Some x /\ tm_armed x = true /\ c_pending (get_conn st 0) = 1.
+Proof. exact stale_finish_harmless. Qed.
 Theorem C09_timer_protocol_unguarded_refuted :
-  exists ls st, run cn_cf init ls = Some st /\ panicked st = panic_release_active.
+  exists ls st, run tt_cf init ls = Some st /\ panicked st = panic_release_active.
 Proof. exact reuse_unguarded_refuted. Qed.
 Print Assumptions C09_timer_protocol_unguarded_refuted.
 
